@@ -15,7 +15,7 @@ from .common import attr_writers
 from .resultrun import ResultInterp, Tagged
 
 INFO = {
-    "explanation": "Rounds 4/5: R05.1 observes the library calls actually made (wherever they sit) and runs two-call histories on one approximator object (n_dim 3->2, 2->3, 3->1, 1->4); the name-based dtype rule was replaced by R05.6 (values). (R05.1) ConnectedComponentsInstanceApproximator._approximate_instances is run abstractly on cca_backend in {None, cc3d, scipy} x n_dim in {1,2,3,4} x empty/non-empty sides: backend table (None: <3-D scipy, >=3-D cc3d; else as given), the same backend for both sides, prediction/reference arrays and counts uncrossed, empty sides skipped with count 0; (R05.2) _connected_components routes each enum member to its library, cc3d with return_N=True and without connectivity/binary_image overrides, scipy.ndimage.label without structure override, outputs returned uncast; (R05.3) the output dtype is the smallest fitting uint of the maximum over BOTH labelled outputs (not of the semantic labels); (R05.4) _get_smallest_fitting_uint returns a dtype that holds its argument on every boundary; negative labels are rejected before the unsigned cast and the semantic dtype is sized from both label ranges; (R05.5) the backend decision does not depend on state written by earlier calls. (R05.6) approximate_instances is run on symbolic label chains of several sizes: the dtype the semantic arrays are cast to before labelling is fitted to a value that dominates every label of both arrays, and the value tested for negativity is dominated by every label. Further: R10.4 (the dimensionality the default backend is chosen by is the arrays' ndim). Round 6: approximators are built through their own constructor (package decorators that change arguments are interpreted), whatever the backend parameter is called. Round 8: the library of a backend is read off the routing (further backends and defaulted options of the approximator are allowed); voxel counts per component (np.bincount of a labelled output, flatnonzero of `counts < k`) are modelled: every component has at least one voxel, only the background bin can be empty - R05.2 is judged on each named class of input (array with / without background voxels), a count moved by a known non-zero amount is a violation.",
+    "explanation": "Rounds 4/5: R05.1 observes the library calls actually made (wherever they sit) and runs two-call histories on one approximator object (n_dim 3->2, 2->3, 3->1, 1->4); the name-based dtype rule was replaced by R05.6 (values). (R05.1) ConnectedComponentsInstanceApproximator._approximate_instances is run abstractly on cca_backend in {None, cc3d, scipy} x n_dim in {1,2,3,4} x empty/non-empty sides: backend table (None: <3-D scipy, >=3-D cc3d; else as given), the same backend for both sides, prediction/reference arrays and counts uncrossed, empty sides skipped with count 0; (R05.2) _connected_components routes each enum member to its library, cc3d with return_N=True and without connectivity/binary_image overrides, scipy.ndimage.label without structure override, outputs returned uncast; (R05.3) the output dtype is the smallest fitting uint of the maximum over BOTH labelled outputs (not of the semantic labels); (R05.4) _get_smallest_fitting_uint returns a dtype that holds its argument on every boundary; negative labels are rejected before the unsigned cast and the semantic dtype is sized from both label ranges; (R05.5) the backend decision does not depend on state written by earlier calls. (R05.6) approximate_instances is run on symbolic label chains of several sizes: the dtype the semantic arrays are cast to before labelling is fitted to a value that dominates every label of both arrays, and the value tested for negativity is dominated by every label. Further: R10.4 (the dimensionality the default backend is chosen by is the arrays' ndim). Round 6: approximators are built through their own constructor (package decorators that change arguments are interpreted), whatever the backend parameter is called. Round 8: the library of a backend is read off the routing (further backends and defaulted options of the approximator are allowed); voxel counts per component (np.bincount of a labelled output, flatnonzero of `counts < k`) are modelled: every component has at least one voxel, only the background bin can be empty - R05.2 is judged on each named class of input (array with / without background voxels), a count moved by a known non-zero amount is a violation. Round 9: the default backend beyond three dimensions is outside the property (any single library accepted there; histories compare with a fresh object's run); component counts stand for the maxima of the labelled outputs in the dtype rule; generator expressions are single-use (a second min / max over one sees it empty), min / max of an empty sequence give their default.",
     "trusted_base": ["cc3d.connected_components (26/8-connectivity, label-aware) and scipy.ndimage.label (face connectivity) compute connected components - C extensions, not analysed", "Python semantics of the modelled AST subset"],
     "assumptions": [],
     "not_decided": ["that the libraries' output is the set of connected components and keeps the foreground", "memory-layout independence of the libraries"],
